@@ -415,8 +415,66 @@ def fam_values(tier):
     return out
 
 
+# extreme numeric arguments (tools/round4_note.md class 1): every integer parameter of every operation, crossed with small non-zero
+# values of the other integer parameters and three object sizes.  The call receives the exact 64-bit value; the specification
+# receives its class (StrObjTrace.tla: XV) - any |value| >= 2^30 is "huge" for texts shorter than 2^28.
+EXTREME = [2**31 - 1, 2**31 - 4, 2**31, 2**32 - 1, 2**32, 2**32 + 2, 3 * 2**32 + 1, 2**40, 2**62, 2**63 - 1, 2**63 - 2, 2**63 - 5,
+           -(2**31), -(2**31) - 1, -(2**32) - 2, -(2**40), -(2**63), -(2**63) + 1]
+
+
+def xarg(v):
+    small = abs(v) < 2**30
+    return {"dec": str(v), "v": v if small else 0, "w": 0 if small else (1 if v > 0 else -1)}
+
+
+def limbs(k):
+    m = abs(k)
+    return [k < 0, m // 10**18, (m // 10**9) % 10**9, m % 10**9]
+
+
+def fam_extreme(tier):
+    out = []
+    for L in (1, 9, 4100):
+        shared = [gch(k) for k in range(1, min(L, 7))]              # a prefix of the text, then a different character
+        other = shared + [90]
+        h = [("a", "new_from_fd_gen", [L, 0, 0]), ("b", "new_from_ptr", [other])]
+        smalls = sorted(set([1, 2, -1, L - 1, -L] if L > 1 else [1, -1, 2]) - {0})
+        pairs = [(e, o) for e in EXTREME for o in smalls] + [(o, e) for e in EXTREME for o in smalls] + \
+                [(e1, e2) for e1 in (2**63 - 1, -(2**63), 2**32 + 1) for e2 in (2**63 - 1, -(2**63), 2**32 + 1, 2**31)]
+        for op, extra in (("substr_x", []), ("substr_to_ptr_x", []), ("splice_from_ptr_x", [[120, 121]]), ("splice_x", []),
+                          ("splice_from_ptr_null_x", []), ("splice_self_x", [])):
+            for i, c in pairs:
+                if L > 100 and op.startswith("substr") and abs(i) < 2**30 and not (L - 8 <= (i if i >= 0 else i + L) < L):
+                    continue                                            # long pieces of the long text are not worth logging
+                h.append(("a", op, [xarg(i), xarg(c)] + extra))
+            h.append(("a", "len", []))
+        ns = [e for e in EXTREME if e >= 0] + list(range(0, 9)) + [2**32 + k for k in range(0, 8)] + [5 * 2**32 + 3, 2**33, 2**48 + 1]
+        for kind in ("ncmp", "ncasecmp"):
+            for n in ns:
+                h += [("a", kind + "_with_ptr_x", [other, xarg(n)]), ("a", kind + "_x", [xarg(n)]), ("b", kind + "_x", [xarg(n)]),
+                      ("a", kind + "_self_x", [xarg(n)]), ("a", kind + "_with_ptr_null_x", [xarg(n)]),
+                      ("a", kind + "_with_ptr_x", [[UP(c) for c in other] if kind == "ncasecmp" else shared, xarg(n)])]
+        out.append(("extreme", h))
+    nums = [2**63 - 1, -(2**63), -(2**63) + 1, 2**31, 2**32, -(2**31) - 1, 10**9, 10**9 - 1, -(10**9), 10**18, 10**18 - 1, 10**18 + 1,
+            1000000001000000001, 2**62, 4 * 10**18, -1, 0, 7]
+    ints = [2**31 - 1, -(2**31), -(2**31) + 1, 10**9, -(10**9), 2 * 10**9, 999999999, 65536]
+    h = [("a", "new_from_num_x", limbs(nums[0]))]
+    for k in nums[1:]:
+        h += [("a", "re_from_num_x", limbs(k)), ("a", "len", [])]
+    for k in ints:
+        h += [("a", "sprintf_d_x", limbs(k)), ("a", "len", [])]
+    for k in nums[:6]:
+        h += [("b", "new_from_num_x", limbs(k)), ("a", "cmp", []), ("b", "del", [])]
+    out.append(("extreme", h))
+    return out
+
+
+def UP(c):
+    return c - 32 if 97 <= c <= 122 else c
+
+
 def families(tier):
-    return fam_growth(tier) + fam_sweep(tier) + fam_slack(tier) + fam_values(tier)
+    return fam_growth(tier) + fam_sweep(tier) + fam_slack(tier) + fam_values(tier) + fam_extreme(tier)
 
 
 def opname(sl, bop):
@@ -427,13 +485,15 @@ def history_text(k, h):
     return "S %d\n%s\nE\n" % (k + 1, "\n".join("%s %s = ? ?" % (opname(sl, bop), " ".join(tok(x) for x in args)) for sl, bop, args in h))
 
 
-def record(ctx, exe, cls, hist, texts, errno_preset=0, raw=False):
+def record(ctx, exe, cls, hist, texts, errno_preset=0, raw=False, debug_level=0):
     """Runs the histories on one class in record mode (per-call heap account on).  Returns (events, index, fails): the NDJSON
     events for StrObjTrace (executions separated by reset events) and, per event, (script id, step).  raw=True: only the
     recorded lines (for the purity comparison under a stale errno)."""
     env = {"VH_NO_HEAP": "1", "VH_WATCHDOG": "120", "C01_OWN_HEAP": "1"}
     if errno_preset:
         env["C01_ERRNO"] = str(errno_preset)
+    if debug_level:
+        env["C01_DEBUG_LEVEL"] = str(debug_level)      # the runtime debug level is a process-wide switch: results must not depend on it
     fails, recs, ns, nt = run_scripts(exe, [cls], texts, ctx.rundir, jobs=4, tag="rec-%s-%d" % (cls, errno_preset), env=env)
     if raw:
         return sorted(recs), fails
@@ -506,14 +566,14 @@ def trace_validation(ctx, exe):
         # every call must give exactly the same recording (no TLC needed: the first recording is the validated one)
         ftexts = texts[nexec:]
         base, bfails = record(ctx, exe, cls, hist[nexec:], ftexts, raw=True)
-        for en, name in ((4, "EINTR"), (34, "ERANGE")) if not bfails else ():
-            again, afails = record(ctx, exe, cls, hist[nexec:], ftexts, errno_preset=en, raw=True)
+        for en, name, dl in ((4, "EINTR,debug_level=1", 1), (34, "ERANGE,debug_level=5", 5)) if not bfails else ():
+            again, afails = record(ctx, exe, cls, hist[nexec:], ftexts, errno_preset=en, raw=True, debug_level=dl)
             purity += len(again)
             for f in afails:
                 sl, bop, args, key = _fail_key(cls, labels[nexec + f.sid - 1], hist[nexec:], f)
                 ctx.report(key + " errno=" + name, "%s: run with errno preset to %s fails at step %d (%s): %r" % (cls, name, f.step, opname(sl, bop), f),
                            {"variant": cls, "harness_args": [cls], "script_text": ftexts[f.sid - 1], "failure": repr(f), "detail": f.detail,
-                            "trace_family": labels[nexec + f.sid - 1], "errno": en})
+                            "trace_family": labels[nexec + f.sid - 1], "errno": en, "debug_level": dl})
             if not afails and again != base:
                 k = next((i for i in range(min(len(again), len(base))) if again[i] != base[i]), 0)
                 sid, step = base[k][0], base[k][1]
@@ -521,12 +581,12 @@ def trace_validation(ctx, exe):
                 ctx.report("impure[%s] %s.%s errno=%s" % (labels[nexec + sid - 1].split(":")[0], cls, bop, name),
                            "%s: %s gives a different result when errno is %s before the call: %s vs %s" % (
                                cls, opname(sl, bop), name, str(base[k][2:])[:120], str(again[k][2:])[:120]),
-                           {"variant": cls, "harness_args": [cls], "script_text": ftexts[sid - 1], "trace_family": labels[nexec + sid - 1], "errno": en})
+                           {"variant": cls, "harness_args": [cls], "script_text": ftexts[sid - 1], "trace_family": labels[nexec + sid - 1], "errno": en, "debug_level": dl})
     ctx.add("trace_events_validated", total)
     ctx.add("traces_validated_against_impl", len(hist) * len(CLASSES))
     ctx.cov["trace_longest_text"] = maxlen
     ctx.cov["trace_families"] = {"random": nexec, "deterministic": nfam, "by_family": {l: sum(1 for x in labels if x.split(":")[0] == l)
-                                                                                   for l in ("growth", "sweep", "slack", "values")},
+                                                                                   for l in ("growth", "sweep", "slack", "values", "extreme")},
                                  "stale_errno_purity_records": purity}
 
 
@@ -582,7 +642,7 @@ def replay(ctx, path):
     exe = harness(ctx)
     if "trace_family" in rp and "event_index" not in rp:
         # a recorded run that failed in the harness (ASan, representation, per-call heap account): run it again the same way
-        recs, fails = record(ctx, exe, rp["variant"], None, [rp["script_text"]], errno_preset=rp.get("errno", 0), raw=True)
+        recs, fails = record(ctx, exe, rp["variant"], None, [rp["script_text"]], errno_preset=rp.get("errno", 0), raw=True, debug_level=rp.get("debug_level", 0))
         for f in fails:
             print("REPRODUCED", f)
             if f.detail:
@@ -599,7 +659,11 @@ def replay(ctx, path):
     for ln in rp["script_text"].splitlines()[1:-1]:
         w = ln.split(" = ")[0].split(" ")
         sl = "b" if w[0].startswith("b_") else "a"
-        h.append((sl, w[0][2:] if sl == "b" else w[0], [untok(x) for x in w[1:] if x != ""]))
+        args = [untok(x) for x in w[1:] if x != ""]
+        for x in args:
+            if isinstance(x, dict) and "dec" in x:
+                x["dec"] = str(x["dec"])
+        h.append((sl, w[0][2:] if sl == "b" else w[0], args))
     events, index, fails = record(ctx, exe, cls, [h], [history_text(0, h)])
     for f in fails:
         print("REPRODUCED (run fails before validation)", f)
